@@ -256,6 +256,15 @@ fn write_file_contents<'data, A: Arch<Platform = Elf>>(
         .into_par_iter()
         .try_for_each(|(group, mut buffers)| -> Result {
             verbose_timing_phase!("Write group");
+            #[cfg(feature = "verif")]
+            let mut verif_iter = crate::verif::iter::enter(
+                "write-group",
+                crate::verif::sched::hash_debug(&format!("{group}")),
+            );
+            #[cfg(feature = "verif")]
+            if verif_iter.skip() {
+                return Ok(());
+            }
 
             let mut table_writer = TableWriter::from_layout(
                 layout,
@@ -279,6 +288,8 @@ fn write_file_contents<'data, A: Arch<Platform = Elf>>(
             table_writer
                 .validate_empty(&group.mem_sizes)
                 .with_context(|| format!("validate_empty failed for {group}"))?;
+            #[cfg(feature = "verif")]
+            verif_iter.completed();
             Ok(())
         })?;
 
